@@ -328,6 +328,13 @@ class _VariationalStrategy(Module, ABC):
         # Delete previously cached items from the training distribution
         if self.training:
             self._clear_cache()
+        else:
+            # Caches kept in eval mode (e.g. the Cholesky factor of K_ZZ + jitter) depend on these settings:
+            # do not reuse caches that were computed under other values
+            cache_settings = (self.jitter_val, settings._linalg_dtype_cholesky.value())
+            if getattr(self, "_cache_settings", cache_settings) != cache_settings:
+                self._clear_cache()
+            self._cache_settings = cache_settings
         # (Maybe) initialize variational distribution
         if not self.variational_params_initialized.item():
             prior_dist = self.prior_distribution
